@@ -176,6 +176,19 @@ def replay(case):
                 if ev0.shape != ref0.shape or np.max(np.abs(np.sort(np.real(ev0)) - np.sort(ref0.real))) > 1e-6 * sc0:
                     out.append(('amuset:nonrev:zero-drift', 'drift array of zeros: eigenvalues %r differ from the dense projected generator '
                                 '1/2 a : hess %r (d=%d m=%d)' % (np.round(np.sort(np.real(ev0)), 6), np.round(np.sort(ref0.real), 6), d, m)))
+        if not out:
+            # second use: one snapshot buffer and one basis list for two calls; the buffer holds other data for the first call and is
+            # refilled in place with x for the second one, whose result must be that of x
+            buf = np.array(np.asarray(x)[:, ::-1] * 0.5 + 0.25, dtype=float, order='C')
+            try:
+                quiet(tg.amuset_hosvd, buf, basis(), sig, return_option='eigenvectors', **kw)
+            except Exception:
+                pass
+            buf[:] = x
+            ev2 = np.asarray(quiet(tg.amuset_hosvd, buf, basis(), sig, return_option='eigenvectors', **kw)[0])
+            if ev2.shape != ref2.shape or np.max(np.abs(np.sort(np.real(ev2)) - np.sort(ref2.real))) > 1e-6 * scale:
+                out.append(('amuset:second-use', 'snapshot buffer refilled in place between two calls (same array and basis-list objects): '
+                            'eigenvalues %r differ from the dense projected generator %r' % (np.round(np.sort(np.real(ev2)), 6), np.round(np.sort(ref2.real), 6))))
     except Exception as e:
         out.append(('%s:exception:%s' % (task, type(e).__name__), '%r' % (e,)))
     return out
